@@ -102,17 +102,17 @@ type jRes struct {
 	Taxes       jSummary   `json:"taxes"`
 }
 type calcEvent struct {
-	K     string `json:"k"`    // calc | invert | permute | removeinc
-	Kind  string `json:"kind"` // invoice | order | delivery
-	Reg   string `json:"reg"`  // regime; "+default" when the rounding rule comes from the regime
-	D     jDoc   `json:"d"`
-	Ok    bool   `json:"ok"`
-	Err   string `json:"err"`
-	R     jRes   `json:"r"`
-	Ok2   bool   `json:"ok2"`  // outcome of the transformation
-	Err2  string `json:"err2"`
-	R2    jRes   `json:"r2"`   // figures after the transformation
-	Perm  []int  `json:"perm"` // permute: new position -> old line index (1-based)
+	K             string   `json:"k"`    // calc | invert | permute | removeinc
+	Kind          string   `json:"kind"` // invoice | order | delivery
+	Reg           string   `json:"reg"`  // regime; "+default" when the rounding rule comes from the regime
+	D             jDoc     `json:"d"`
+	Ok            bool     `json:"ok"`
+	Err           string   `json:"err"`
+	R             jRes     `json:"r"`
+	Ok2           bool     `json:"ok2"` // outcome of the transformation
+	Err2          string   `json:"err2"`
+	R2            jRes     `json:"r2"`   // figures after the transformation
+	Perm          []int    `json:"perm"` // permute: new position -> old line index (1-based)
 	RoundingAfter []tr.Amt `json:"rounding_after"`
 }
 
